@@ -460,7 +460,8 @@ def exPhaseRows : List Row :=
    ⟨30, "A", "C", [([0, 1], some ⟨some 5, [some 1, some 0]⟩)]⟩, ⟨40, "A", "C", [([1, 1], none)]⟩,
    ⟨50, "A", "C", [([0, 1], some ⟨some 9, [some 1, some 0]⟩)]⟩]
 
-theorem exPhase_read : readChromP false none none none exPhaseRecs = .ok (some .HP, some 2, exPhaseRows) := by rfl
+set_option linter.defProp false in
+def exPhase_read : readChromP false none none none exPhaseRecs = .ok (some .HP, some 2, exPhaseRows) := by rfl
 example : readFile false none [("chr1", exPhaseRecs), ("chr2", exPhaseRecs)] =
     .ok (some 2, [("chr1", exPhaseRows), ("chr2", exPhaseRows)]) := by rfl
 /-- a one-field HP value on a diploid genotype, PS next to HP in one chromosome, a haploid call after diploid ones -/
@@ -516,7 +517,8 @@ def exPlainRecs : List Record :=
   [⟨"1", 10, "A", ["C"], ["GT"], [("A", ⟨some [some 0, some 1], false, []⟩), ("B", ⟨some [some 0, some 0], false, []⟩)]⟩,
    ⟨"2", 10, "A", ["G"], ["GT"], [("A", ⟨some [some 1, some 0], false, []⟩), ("B", ⟨some [none, some 1], false, []⟩)]⟩]
 
-theorem exGroupsOk : ∀ g ∈ [("chr1", exFileCfg, exFileRecs), ("chr2", { exFileCfg with targets := [] }, exPlainRecs)],
+set_option linter.defProp false in
+def exGroupsOk : ∀ g ∈ [("chr1", exFileCfg, exFileRecs), ("chr2", { exFileCfg with targets := [] }, exPlainRecs)],
     GroupOk true g := by
   intro g hg
   simp only [List.mem_cons, List.not_mem_nil, or_false] at hg
